@@ -107,6 +107,7 @@ func decodeExact(enc []byte, skipCode bool, dec func(r *proto.Reader) error) err
 }
 
 type c17ctx struct {
+	info proto.ColInfoInput // reused over the schema blocks of a run
 	rt   *rapid.T
 	revs []int
 	st   *stats.Collector
@@ -562,6 +563,19 @@ func (c *c17ctx) schemaBlock() {
 		for i, tc := range tcols {
 			if tc.Column().Rows() != 0 {
 				return fmt.Errorf("column %d has %d rows after a zero-row block", i, tc.Column().Rows())
+			}
+		}
+		// The column-description target of an INSERT (used again for every header, as the client does):
+		// the descriptors in order, whatever it held before.
+		if err := decodeExact(b.Buf, false, func(r *proto.Reader) error { var g proto.Block; return g.DecodeBlock(r, rev, &c.info) }); err != nil {
+			return fmt.Errorf("zero-row block %v into ColInfoInput: %w", typeNames(cols), err)
+		}
+		if len(c.info) != len(cols) {
+			return fmt.Errorf("ColInfoInput holds %d descriptors after a header of %d columns %v", len(c.info), len(cols), typeNames(cols))
+		}
+		for i, col := range cols {
+			if c.info[i].Name != col.Name || string(c.info[i].Type) != col.Kind.T.Name {
+				return fmt.Errorf("ColInfoInput[%d] = %q %s, header says %q %s", i, c.info[i].Name, c.info[i].Type, col.Name, col.Kind.T.Name)
 			}
 		}
 		// Read without targets (empty Results, nil): the header is skipped exactly, flag bytes included.
